@@ -70,22 +70,31 @@ var alsoRuns = map[string][]borrow{
 	// instances must not share mutable package-level state: a configuration is decoded into a fresh value (C16.V3)
 	"C01": {{prop: "C16", rules: []string{"V3"}, keyHas: "fresh configuration value"}},
 	// ended sessions must leave the session table, otherwise their secret keeps working
-	"C11": {{prop: "C17", rules: []string{"Y1", "Y3", "Y4"}}},
+	// … and the secret survives a snapshot unchanged (C03 obligations about the auth field)
+	"C11": {{prop: "C17", rules: []string{"Y1", "Y3", "Y4"}}, {prop: "C03", keyHasAny: []string{".auth", ".Auth"}}},
 	// recipient sets are computed from the membership relations whose pairing C14 checks
 	// … and from the nickname index, which a restore must rebuild for every session with a nickname (C03.K4)
 	// … and nothing but the closing line reaches a session after it ended (C17.Y5)
-	"C12": {{prop: "C14"}, {prop: "C03", rules: []string{"K4"}}, {prop: "C17", rules: []string{"Y5"}}},
+	// … and no client can inject a second line with a prefix of its choosing (C15.W2)
+	"C12": {{prop: "C14"}, {prop: "C03", rules: []string{"K4"}}, {prop: "C17", rules: []string{"Y5"}}, {prop: "C15", rules: []string{"W2"}}},
 	// operator status lives in per-member arrays: a restore that shares one array between members hands out operator status
 	// … and privileges must survive a snapshot: operator flag, channel settings, member status, invitations, services links
 	"C13": {{prop: "C14", rules: []string{"M1"}, keyHas: "fresh status array"},
-		{prop: "C03", keyHasAny: []string{".Operator", ".Server", ".modes", ".Modes", ".bans", ".Bans", ".key", ".Key", ".invitedTo", ".InvitedTo", "channel.nicks", ".Nicks", ".Pass"}}},
+		{prop: "C03", keyHasAny: []string{".Operator", ".Server", ".modes", ".Modes", ".bans", ".Bans", ".key", ".Key", ".invitedTo", ".InvitedTo", "channel.nicks", ".Nicks", ".Pass", "SolvedCaptcha"}},
+		{prop: "C14", rules: []string{"M6"}}},
 	// ended sessions leave every relation and the session table (C17.Y4)
 	// … and a restore rebuilds the derived indexes consistently (C03.K4/K4b)
-	"C14": {{prop: "C17", rules: []string{"Y4"}}, {prop: "C03", rules: []string{"K4"}}},
+	"C14": {{prop: "C17", rules: []string{"Y4"}}, {prop: "C03", rules: []string{"K4"}}, {prop: "C03", keyHasAny: []string{"identifier literal"}}},
 	// replicas that load the configuration from a snapshot must get the same one
 	// … and the ban table must be a usable map after every way of installing a configuration (C06.G5), else the next
 	// GLINE kills the replica that restored and the others keep the ban
-	"C16": {{prop: "C03", keyHas: "onfig"}, {prop: "C06", rules: []string{"G5"}, keyHas: "Banned"}},
+	// … and a Config entry keeps its revision in every log encoding (C18.F1/F2 about Revision)
+	"C16": {{prop: "C03", keyHas: "onfig"}, {prop: "C06", rules: []string{"G5"}, keyHas: "Banned"}, {prop: "C18", rules: []string{"F1", "F2"}, keyHas: "Revision"}},
+	// a relayed line starts with a well-formed prefix: the cached prefix is refreshed whenever the nickname changes (C12.T4)
+	"C15": {{prop: "C12", rules: []string{"T4"}}},
+	// sessions (and the expiration they are measured against) survive a snapshot: every session is restored (C03.K7), ids keep
+	// both components (K1c), the configured expiration round-trips
+	"C17": {{prop: "C03", rules: []string{"K7"}}, {prop: "C03", keyHasAny: []string{"SessionExpiration", "LastActivity", "identifier literal"}}},
 }
 
 // Rule set registry: property id -> function.
